@@ -21,7 +21,7 @@ RULE = ("one seed -> one base scenario: writable value = seed mod 27 (all 27 wri
         "9th seed), seeded raw data (random, short strings, MASK/TMASK-like patterns), lock byte initially locked / unlocked "
         "/ odd, gear or device addressing, ignore_feedback / force_unlock options, bystander unit; the base runs fault-free, "
         "then once per (fault kind, command index): unit answers NO, echoes another byte, framing error on the echo, answer "
-        "lost on the bus, DTR0 not advancing, unit stays locked, non-standard unlock value, bank shorter than the value, "
+        "lost on the bus, DTR0 not advancing at all / after one write, unit stays locked, non-standard unlock value, bank shorter than the value, "
         "an unrelated frame of another master before each command (resets write enable). Non-trivial iff a fault fired or "
         ">= 4 commands were exchanged; distinct = distinct (command, outcome) sequence.")
 ASSUMPTIONS = [
@@ -31,9 +31,10 @@ ASSUMPTIONS = [
 COMPONENTS = {"real": ["dali.memory.location.MemoryValue.write / write_raw, value_to_raw", "dali.memory.{oem,energy,diagnostics,maintenance,info} declarations",
                        "dali.gear.general / dali.device.general memory commands"],
               "stub": ["bus, control gear / control device memory (sim/busim.py)", "driver"]}
-PROBES = ["fault-answer-no", "fault-echo-other", "fault-garble", "fault-drop", "fault-dtr0-frozen", "fault-stays-locked",
+PROBES = ["fault-answer-no", "fault-echo-other", "fault-garble", "fault-drop", "fault-dtr0-frozen", "fault-dtr0-stuck-once", "fault-stays-locked",
           "fault-odd-unlock-value", "fault-short-bank", "fault-foreign-frame", "readonly-refused", "device-addressing",
-          "ignore-feedback", "short-string-write", "initially-unlocked"]
+          "ignore-feedback", "short-string-write", "initially-unlocked", "value-level-write-int", "value-level-write-mask",
+          "value-level-write-tmask", "value-level-write-str"]
 DOCUMENTED = (MemoryLocationNotWriteable, MemoryWriteFailure, MemoryWriteError, ResponseError)
 
 
@@ -60,7 +61,28 @@ def gen_base(seed, tier="quick"):
         raw = [0] * ln
     else:
         raw = [r.randrange(0x20, 0x7F) for _ in range(ln)]
-    return {"engine": "busim", "property": PROP, "seed": seed, "bank": key, "value": v.name, "raw": raw,
+    via = None
+    if not ro and v.name != "LockByte" and r.random() < 0.3:
+        # value-level write(): the library converts the value itself
+        nbits = 8 * n
+        plain = issubclass(v, location.NumericValue) and not issubclass(
+            v, (location.FixedScaleNumericValue, location.TemperatureValue))
+        opts = []
+        if issubclass(v, location.NumericValue):
+            if v.mask_supported:
+                opts.append(["MASK"])
+            if v.tmask_supported:
+                opts.append(["TMASK"])
+            if plain:
+                lo, hi = (-(1 << (nbits - 1)), (1 << (nbits - 1)) - 1) if v.signed else (0, (1 << nbits) - 1)
+                opts += [["int", r.choice([lo, hi, hi - 1, r.randrange(lo, hi + 1), r.randrange(lo, hi + 1)])]] * 2
+        elif is_str:
+            sl = r.choice([0, 1, n - 1, n, r.randrange(0, n + 1)])
+            opts.append(["str", "".join(chr(r.randrange(0x20, 0x7F)) for _ in range(sl))])
+        if opts:
+            via = r.choice(opts)
+            raw = list(expected_raw(v, via))
+    return {"engine": "busim", "property": PROP, "seed": seed, "bank": key, "value": v.name, "raw": raw, "via": via,
             "short_write": ln != n, "lock": r.choice([0xFF, 0xFF, 0x55, 0x12, 0x00]),
             "kind": r.choice(["gear", "gear", "device"]), "short": r.randrange(64),
             "ignore_feedback": r.random() < 0.12,
@@ -68,7 +90,21 @@ def gen_base(seed, tier="quick"):
             "pattern": r.choice(["random", "random", "ff", "mixed"]), "fault": None, "readonly": ro}
 
 
-FAULT_KINDS = ["no", "other", "garble", "drop", "freeze", "stays-locked", "odd-unlock", "short-bank", "foreign"]
+def expected_raw(v, via):
+    """What a value-level write has to store (IEC 62386 / DiiA parts 251-253:
+    numbers MSB first, MASK all ones, TMASK all ones but the least significant
+    bit - positive maximum for signed values; strings NUL-terminated when short)."""
+    n = len(v.locations)
+    if via[0] == "int":
+        return via[1].to_bytes(n, "big", signed=bool(v.signed))
+    if via[0] in ("MASK", "TMASK"):
+        top = (1 << (8 * n - 1)) - 1 if v.signed else (1 << (8 * n)) - 1
+        return (top - (1 if via[0] == "TMASK" else 0)).to_bytes(n, "big")
+    b = via[1].encode("ascii")
+    return b + (b"\x00" if len(b) < n else b"")
+
+
+FAULT_KINDS = ["no", "other", "garble", "drop", "freeze", "freeze-at", "stays-locked", "odd-unlock", "short-bank", "foreign"]
 
 
 def _find_value(key, name):
@@ -102,6 +138,8 @@ def run_plan(plan):
     bystander = memsim.make_unit(plan["kind"], (plan["short"] + 7) % 64, [by_bank])
     if fk == "freeze":
         unit.freeze_dtr0 = True
+    if fk == "freeze-at":
+        unit.freeze_after.add(fi)
     if fk == "stays-locked":
         bank.ignore_unlock = True
     if fk in ("no", "other", "garble"):
@@ -132,7 +170,13 @@ def run_plan(plan):
         vs.append(Violation(PROP, clause, detail, driver="write_raw", site=site))
 
     try:
-        gen = v.write_raw(addr, raw, **kw)
+        via = plan.get("via")
+        if via:
+            kw.pop("allow_short_write")
+            probes["value-level-write-" + via[0].lower()] = 1
+            gen = v.write(addr, via[0] if via[0] in ("MASK", "TMASK") else via[1], **kw)
+        else:
+            gen = v.write_raw(addr, raw, **kw)
         sr = busim.run_sequence(gen, bus, answer_faults=answer_faults, cap=400, env=env, log=log)
     except Exception as e:                      # noqa: BLE001
         sr = busim.SeqRun()
@@ -141,7 +185,7 @@ def run_plan(plan):
     locs = [l.address for l in v.locations][:len(raw)]
     want = dict(zip(locs, raw))
     fired = bool(foreign_fired) or (fk in ("freeze", "stays-locked", "odd-unlock", "short-bank")) or \
-        any(c[4] for c in sr.commands) or (fk in ("no", "other", "garble") and unit.mem_writes > fi)
+        any(c[4] for c in sr.commands) or (fk in ("no", "other", "garble", "freeze-at") and unit.mem_writes > fi)
     if not writable:
         probes["readonly-refused"] = 1
         if not (sr.status == "raise" and isinstance(sr.exc, MemoryValueNotWriteable)):
@@ -181,7 +225,7 @@ def run_plan(plan):
     if by_bank.cells != by_before:
         V("bystander-changed", "another unit's memory was modified")
     if fk:
-        probes["fault-" + {"no": "answer-no", "other": "echo-other", "freeze": "dtr0-frozen",
+        probes["fault-" + {"no": "answer-no", "other": "echo-other", "freeze": "dtr0-frozen", "freeze-at": "dtr0-stuck-once",
                            "odd-unlock": "odd-unlock-value", "foreign": "foreign-frame"}.get(fk, fk)] = 1 if fired else 0
     if plan["kind"] == "device":
         probes["device-addressing"] = 1
@@ -224,7 +268,7 @@ def run_seed(seed, tier):
     steps, nw = b["_steps"], b["_nwrites"]
     r = plans.rng_for(seed, PROP + "-variants")
     for fk in FAULT_KINDS:
-        if fk in ("no", "other", "garble"):
+        if fk in ("no", "other", "garble", "freeze-at"):
             idxs = range(nw)
         elif fk in ("drop", "foreign"):
             idxs = range(steps + (1 if fk == "foreign" else 0))
@@ -264,7 +308,11 @@ def shrink(plan):
             p = copy.deepcopy(plan)
             p[k] = simple
             yield p
-    if any(plan["raw"]):
+    if plan.get("via"):
+        p = copy.deepcopy(plan)
+        p["via"] = None
+        yield p
+    elif any(plan["raw"]):
         p = copy.deepcopy(plan)
         p["raw"] = [0] * len(plan["raw"])
         yield p
